@@ -10,7 +10,7 @@ import (
 // refer to constants by the name they had when the models were written (the baseline: Consts.lean as generated from
 // the pinned tree, committed as extract/consts_baseline.lean). For a baseline name that no longer exists, a constant
 // of the SAME package with the SAME Lean type and the SAME value that did not exist in the baseline is taken to be
-// the renamed one, and `def <old> : T := <new>` is emitted. Values always come from the current sources: a constant
+// the renamed one, and `def <old> : T := <current value of new>` is emitted. Values always come from the current sources: a constant
 // whose value changed (or that disappeared without an equal-valued successor) gets no alias, the models that use it
 // stop building and the check reports that. Among several equal-valued candidates any choice gives the same value.
 func renameAliases(defs []def, baselinePath string) []def {
@@ -70,7 +70,9 @@ func renameAliases(defs []def, baselinePath string) []def {
 			}
 			if c := cur[cand]; c.typ == b.typ && c.val == b.val {
 				used[cand] = true
-				out = append(out, def{old, "def " + old + " : " + b.typ + " := " + cand + "  -- alias: renamed in the sources"})
+				// the value is written out (it IS the current value of cand: types and values were compared above), so that proofs
+				// which unfold the constant see the same literal as before the rename
+				out = append(out, def{old, "def " + old + " : " + b.typ + " := " + c.val + "  -- alias: renamed in the sources to " + cand})
 				break
 			}
 		}
